@@ -35,13 +35,15 @@ using std::vector;
 enum Kind { SET_RFC, SET_TLD, SET_ALLOW, SETUP, IS_EMAIL, ERRSTR, FREE_INIT, LOCAL, ADOM, UDOM, IP4, IP6, IPADDR, TLD, SPECIAL, EMAIL, NKINDS };
 static const char *KNAME[NKINDS] = { "SET_RFC", "SET_TLD", "SET_ALLOW", "SETUP", "IS_EMAIL", "ERRSTR", "FREE_INIT", "LOCAL", "ADOM", "UDOM", "IP4", "IP6", "IPADDR", "TLD", "SPECIAL", "EMAIL" };
 
-struct Op { int t = 0; Kind k = SETUP; long long v = 0; string a; int mf = 0; /* allocation fault: the mf-th malloc of this call returns NULL */ };
+struct Op { int t = 0; Kind k = SETUP; long long v = 0; string a; int mf = 0; /* allocation fault: the mf-th malloc of this call returns NULL */
+            int ph = 0; /* handoff: 1 = a leading call of thread t's program made by the main thread before t starts, 2 = a trailing call made by the main thread after t was joined */ };
 struct Plan {
     string cfg = "random"; uint64_t seed = 0; long long index = -1; int nthreads = 2;
     string locale = "C";        // process locale during the run (the library must not depend on it, nor change it)
     vector<Op> ops;
     int policy = 1; uint64_t den = 16, quantum = 2, sched_seed = 1; int depth = 2;
     vector<rt::Switch> switches; bool has_switches = false;
+    vector<int> main_init, main_free;   // object handoff: threads whose eav_t is initialised by the main thread before they start / freed by it after the join
 };
 
 static sj::Value plan_to_json(const Plan &p) {
@@ -55,9 +57,12 @@ static sj::Value plan_to_json(const Plan &p) {
         if (op.k == SET_RFC || op.k == SET_TLD || op.k == SET_ALLOW || op.k == LOCAL || op.k == UDOM || op.k == EMAIL) o.set("v", op.v);
         if (op.k == IS_EMAIL || op.k >= LOCAL) o.set("a", op.a);
         if (op.mf) o.set("mf", op.mf);
+        if (op.ph) o.set("ph", op.ph);
         a.push(o);
     }
     j.set("ops", a);
+    if (!p.main_init.empty()) { sj::Value m = sj::Value::array(); for (int t : p.main_init) m.push(sj::Value::integer(t)); j.set("main_init", m); }
+    if (!p.main_free.empty()) { sj::Value m = sj::Value::array(); for (int t : p.main_free) m.push(sj::Value::integer(t)); j.set("main_free", m); }
     if (p.has_switches) {
         sj::Value sw = sj::Value::array();
         for (auto &x : p.switches) { sj::Value e = sj::Value::array(); e.push(sj::Value::integer((long long)x.at)); e.push(sj::Value::integer(x.to)); e.push(sj::Value::integer(x.forced)); sw.push(e); }
@@ -77,12 +82,13 @@ static Plan plan_from_json(const sj::Value &j) {
         Op op; string k = e.gets("k"); int ki = -1;
         for (int i = 0; i < NKINDS; i++) if (k == KNAME[i]) ki = i;
         if (ki < 0) continue;
-        op.k = (Kind)ki; op.t = (int)e.geti("t"); op.v = e.geti("v"); op.a = e.gets("a"); op.mf = (int)e.geti("mf");
+        op.k = (Kind)ki; op.t = (int)e.geti("t"); op.v = e.geti("v"); op.a = e.gets("a"); op.mf = (int)e.geti("mf"); op.ph = (int)e.geti("ph");
         if (op.t < 0) op.t = 0;
         op.t %= p.nthreads;
         if (op.a.find('\0') != string::npos) op.a = op.a.substr(0, op.a.find('\0'));
         p.ops.push_back(op);
     }
+    for (const char *nm : { "main_init", "main_free" }) { const sj::Value *m = j.get(nm); if (m && m->kind == sj::Value::Arr) for (auto &e : m->a) { int t = (int)e.i; if (t >= 0 && t < p.nthreads) (nm[5] == 'i' ? p.main_init : p.main_free).push_back(t); } }
     const sj::Value *sw = j.get("switches");
     if (sw && sw->kind == sj::Value::Arr) {
         p.has_switches = true;
@@ -97,6 +103,25 @@ struct Shared {
     std::map<string, char *> strings;           // interned: same pointer for every thread
     vector<void *> objs;                        // one eav_t per thread (heap, owned by that thread)
     vector<vector<string>> out;                 // outcome log per thread
+    // per thread: its ops in order, which of them the main thread runs before the start [0,a) / after the join [b,n), who
+    // initialises and frees the object, and the state carried from one segment to the next
+    vector<vector<const Op *>> prog; vector<size_t> a, b; vector<char> init_by_main, free_by_main, stopped; vector<int> confirmed;
+    string dangling;                            // the main thread found an object pointing into a finished thread's memory
+    void layout() {
+        const Plan &p = *plan; int n = p.nthreads;
+        prog.assign(n, {}); a.assign(n, 0); b.assign(n, 0); init_by_main.assign(n, 0); free_by_main.assign(n, 0);
+        for (auto &op : p.ops) prog[op.t].push_back(&op);
+        for (int t = 0; t < n; t++) {
+            size_t m = prog[t].size(), i = 0, j = m;
+            while (i < m && prog[t][i]->ph == 1) i++;
+            while (j > i && prog[t][j - 1]->ph == 2) j--;
+            a[t] = i; b[t] = j;
+            init_by_main[t] = i > 0; free_by_main[t] = j < m;
+        }
+        for (int t : p.main_init) init_by_main[t] = 1;
+        for (int t : p.main_free) free_by_main[t] = 1;
+    }
+    void fresh_state() { stopped.assign(plan->nthreads, 0); confirmed.assign(plan->nthreads, -1); dangling.clear(); }
 };
 
 static string res_str(eav_result_t *r) {
@@ -110,15 +135,21 @@ static string res_str(eav_result_t *r) {
 #endif
 }
 
-static void run_program(int tid, Shared *sh, bool concurrent) {
-    const Plan &p = *sh->plan;
+// calls [lo,hi) of thread tid's program, on whichever thread calls this; by_main_after: the main thread continues with an
+// object that a joined thread used last
+static void run_segment(int tid, Shared *sh, size_t lo, size_t hi, bool do_init, bool do_free, bool concurrent, bool by_main_after = false) {
     eav_t *e = (eav_t *)sh->objs[tid];
     vector<string> &out = sh->out[tid];
-    int confirmed = -1;
-    rt::enter_sut(); eav_init(e); rt::leave_sut();
+    int &confirmed = sh->confirmed[tid];
+    if (sh->stopped[tid]) return;
+    if (do_init) { rt::enter_sut(); eav_init(e); rt::leave_sut(); }
     char b[256];
-    for (auto &op : p.ops) {
-        if (op.t != tid) continue;
+    if (by_main_after && e->result) {
+        int o = rt::finished_thread_owning(e->result);
+        if (o >= 0) { sh->dangling = "after joining thread " + std::to_string(o) + " its eav_t still points (result) into that thread's stack / thread-local storage"; sh->stopped[tid] = 1; return; }
+    }
+    for (size_t oi = lo; oi < hi; oi++) {
+        const Op &op = *sh->prog[tid][oi];
         const char *s = nullptr; size_t n = 0; const char *at = nullptr, *dom = nullptr, *end = nullptr;
         if (op.k == IS_EMAIL || op.k >= LOCAL) {
             s = sh->strings[op.a]; n = op.a.size(); end = s + n;
@@ -195,21 +226,22 @@ static void run_program(int tid, Shared *sh, bool concurrent) {
         if (concurrent && rt::thread_aborted()) break;
     }
     rt::arm_alloc_fault(0);
-    rt::enter_sut(); eav_free(e); rt::leave_sut();
-    out.push_back("END");
+    if (do_free) { rt::enter_sut(); eav_free(e); rt::leave_sut(); out.push_back("END"); }
 }
 
-static void thread_entry(int tid, void *arg) { run_program(tid, (Shared *)arg, true); }
-static void seq_entry(int tid, void *arg) { run_program(tid, (Shared *)arg, false); }
+static void thread_entry(int tid, void *arg) { Shared *sh = (Shared *)arg; run_segment(tid, sh, sh->a[tid], sh->b[tid], !sh->init_by_main[tid], !sh->free_by_main[tid], true); }
+static void seq_entry(int tid, void *arg) { Shared *sh = (Shared *)arg; run_segment(tid, sh, 0, sh->prog[tid].size(), true, true, false); }
+static void pre_entry(int tid, void *arg) { Shared *sh = (Shared *)arg; run_segment(tid, sh, 0, sh->a[tid], true, false, false); }
+static void post_entry(int tid, void *arg) { Shared *sh = (Shared *)arg; run_segment(tid, sh, sh->b[tid], sh->prog[tid].size(), false, true, false, true); }
 // the library aborted / asserted inside a call of this thread: that is the outcome of the call (what matters is whether
 // the same happens when the thread runs alone)
-static void on_abort(int tid, void *arg) { ((Shared *)arg)->out[tid].push_back("ABORTED inside the library"); rt::arm_alloc_fault(0); }
+static void on_abort(int tid, void *arg) { Shared *sh = (Shared *)arg; sh->out[tid].push_back("ABORTED inside the library"); sh->stopped[tid] = 1; rt::arm_alloc_fault(0); }
 
 // ------------------------------------------------------------------ execution of one plan
 struct Viol { string cls, detail; };
 struct Stats {
     uint64_t plans = 0, steps = 0, events = 0, ctx_switches = 0, seq_steps = 0, ops = 0, lib_calls = 0, threads_hist[rt::MAXT + 1] = { 0 }, policy_hist[5] = { 0 };
-    uint64_t alloc_faults_attached = 0, aborted_calls = 0, spin_yields = 0, inconclusive_shadow_overflow = 0, write_shared = 0, sync_ops = 0, atomic_ops = 0, pseudo_writes = 0, outcome_cmp = 0, globals_dirty_after_seq = 0, races_seen = 0;
+    uint64_t handoff_plans = 0, calls_by_main_before_start = 0, calls_by_main_after_join = 0, alloc_faults_attached = 0, aborted_calls = 0, spin_yields = 0, inconclusive_shadow_overflow = 0, write_shared = 0, sync_ops = 0, atomic_ops = 0, pseudo_writes = 0, outcome_cmp = 0, globals_dirty_after_seq = 0, races_seen = 0;
     std::set<uint64_t> interleavings, plan_hashes, nontrivial;
     uint64_t kind[NKINDS] = { 0 };
 };
@@ -220,7 +252,8 @@ struct RunOut { vector<Viol> viols; uint64_t h = SIM_FNV_INIT; vector<string> lo
 static void run_plan(const Plan &p, bool want_log, RunOut &ro, bool count = true) {
     auto rec = [&](const string &s) { ro.h = sim_fnv1a(ro.h, s.data(), s.size()); ro.h = sim_fnv1a(ro.h, "\n", 1); if (want_log) ro.log.push_back(s); };
     auto viol = [&](const string &c, const string &d) { Viol v; v.cls = c; v.detail = d; ro.viols.push_back(v); rec("VIOLATION " + c + " | " + d); };
-    Shared sh; sh.plan = &p;
+    Shared sh; sh.plan = &p; sh.layout();
+    bool handoff = false; for (int t = 0; t < p.nthreads; t++) if (sh.init_by_main[t] || sh.free_by_main[t]) handoff = true;
     rt::clear_named();
 #ifdef HAVE_IDNKIT
     sim_ctx_reset(); g_sim_nreports = 0;
@@ -244,7 +277,7 @@ static void run_plan(const Plan &p, bool want_log, RunOut &ro, bool count = true
     new_objs();
     for (int t = 0; t < p.nthreads; t++) {
         rt::reset_library_globals();
-        sh.out.assign(p.nthreads, vector<string>());
+        sh.out.assign(p.nthreads, vector<string>()); sh.fresh_state();
         rt::begin_sequential();
         rt::run_sequential(seq_entry, t, &sh);
         seq_steps += rt::end_sequential();
@@ -254,13 +287,27 @@ static void run_plan(const Plan &p, bool want_log, RunOut &ro, bool count = true
     // ---- concurrent phase, from pristine library statics
     rt::reset_library_globals();
     new_objs();
-    sh.out.assign(p.nthreads, vector<string>());
-    rt::Config cfg; cfg.nthreads = p.nthreads; cfg.policy = p.has_switches ? 0 : p.policy; cfg.den = p.den; cfg.quantum = p.quantum; cfg.pct_depth = p.depth;
+    sh.out.assign(p.nthreads, vector<string>()); sh.fresh_state();
+    // object handoff, first half: the main thread initialises some objects and makes the leading calls of their programs;
+    // thread creation orders all of that before everything the threads do
+    uint64_t handoff_steps = 0;
+    if (handoff) {
+        rt::begin_sequential();
+        for (int t = 0; t < p.nthreads; t++) if (sh.init_by_main[t]) rt::run_sequential(pre_entry, t, &sh);
+        handoff_steps += rt::end_sequential();
+    }
+    rt::Config cfg; cfg.nthreads = p.nthreads; cfg.keep_sync_state = handoff; cfg.policy = p.has_switches ? 0 : p.policy; cfg.den = p.den; cfg.quantum = p.quantum; cfg.pct_depth = p.depth;
     cfg.pct_est_steps = seq_steps ? seq_steps : 1; cfg.sched_seed = p.sched_seed; cfg.replay = p.switches;
     cfg.step_budget = 20 * seq_steps + 2000;
     rt::Result res;
     rt::run_concurrent(cfg, thread_entry, &sh, res);
     ro.switches = res.switches;
+    // second half: after the join the main thread makes the trailing calls and frees the objects
+    if (handoff) {
+        rt::begin_sequential();
+        for (int t = 0; t < p.nthreads; t++) if (sh.free_by_main[t]) rt::run_sequential(post_entry, t, &sh);
+        handoff_steps += rt::end_sequential();
+    }
     char b[200];
     snprintf(b, sizeof b, "RUN steps=%llu events=%llu switches=%llu seq_steps=%llu ih=%016llx", (unsigned long long)res.steps, (unsigned long long)res.events, (unsigned long long)res.ctx_switches, (unsigned long long)seq_steps, (unsigned long long)res.interleaving_hash);
     rec(b);
@@ -277,6 +324,8 @@ static void run_plan(const Plan &p, bool want_log, RunOut &ro, bool count = true
     // the idnkit stand-in checks every create / destroy / use of a resolver context
     if (g_sim_nreports > 0) viol(string("C14:") + g_sim_report_cls[0], g_sim_report_detail[0]);
 #endif
+    if (!res.bad_free.empty()) viol("C14:free-of-thread-memory", res.bad_free);
+    if (!sh.dangling.empty()) viol("C14:object-points-into-finished-thread", sh.dangling);
     // ---- oracle 3: progress
     if (res.deadlock) viol("C14:deadlock", "all unfinished threads are blocked");
     if (res.budget_exceeded) viol("C14:no-progress", "run exceeded 20x the sequential step count");
@@ -306,6 +355,7 @@ static void run_plan(const Plan &p, bool want_log, RunOut &ro, bool count = true
         if (dirty) ST.globals_dirty_after_seq++;
         ST.races_seen += res.races.size();
         for (auto &op : p.ops) { ST.kind[op.k]++; if (op.mf) ST.alloc_faults_attached++; }
+        if (handoff) { ST.handoff_plans++; for (int t = 0; t < p.nthreads; t++) { ST.calls_by_main_before_start += sh.a[t]; ST.calls_by_main_after_join += sh.prog[t].size() - sh.b[t]; } }
         for (int t = 0; t < p.nthreads; t++) for (auto &l : sh.out[t]) if (l.compare(0, 7, "ABORTED") == 0) ST.aborted_calls++;
         if (ST.interleavings.size() < 4000000) ST.interleavings.insert(res.interleaving_hash);
         string oj = sj::dump(plan_to_json(p));
@@ -446,7 +496,18 @@ static Plan gen_plan(const string &cfg, uint64_t seed, long long index) {
         }
         for (auto &o : mine) p.ops.push_back(o);
     }
-    // interleave the op list by thread for readability?  no: order within a thread is what matters
+    // object handoff (one plan in four): an eav_t is prepared, and perhaps already used, by the main thread before the worker
+    // starts, and / or read, used and freed by the main thread after the worker was joined.  Creation and join order
+    // everything, so each object is still used by one thread at a time.
+    sim_rng hr = sim_derive(rs, 4);
+    if (sim_below(&hr, 4) == 0) {
+        for (int t = 0; t < p.nthreads; t++) {
+            vector<Op *> mine; for (auto &o : p.ops) if (o.t == t) mine.push_back(&o);
+            size_t n = mine.size(), lead = 0;
+            if (sim_below(&hr, 2)) { lead = sim_below(&hr, std::min<size_t>(n, 6) + 1); for (size_t i = 0; i < lead; i++) mine[i]->ph = 1; if (!lead) p.main_init.push_back(t); }
+            if (sim_below(&hr, 2)) { size_t tail = sim_below(&hr, std::min<size_t>(n - lead, 3) + 1); for (size_t i = 0; i < tail; i++) mine[n - 1 - i]->ph = 2; if (!tail) p.main_free.push_back(t); }
+        }
+    }
     p.sched_seed = sim_next(&s);
     if (cfg == "pct") { p.policy = 3; p.depth = 1 + (int)sim_below(&s, 4); }
     else if (cfg == "rr") { p.policy = 2; static const uint64_t Q[] = { 1, 2, 5, 17 }; p.quantum = Q[sim_below(&s, 4)]; }
@@ -479,6 +540,7 @@ static sj::Value stats_json() {
     sj::Value j = sj::Value::object();
     j.set("plans", ST.plans); j.set("steps", ST.steps); j.set("logged_events", ST.events); j.set("context_switches", ST.ctx_switches); j.set("sequential_steps", ST.seq_steps);
     j.set("ops", ST.ops); j.set("outcome_comparisons", ST.outcome_cmp); j.set("write_shared_locations", ST.write_shared);
+    j.set("handoff_plans", ST.handoff_plans); j.set("calls_by_main_before_start", ST.calls_by_main_before_start); j.set("calls_by_main_after_join", ST.calls_by_main_after_join);
     j.set("alloc_faults_attached", ST.alloc_faults_attached); j.set("calls_aborted_inside_library", ST.aborted_calls);
     j.set("sync_ops", ST.sync_ops); j.set("atomic_ops", ST.atomic_ops); j.set("spin_yields", ST.spin_yields); j.set("hidden_state_libc_calls", ST.pseudo_writes);
     j.set("plans_where_library_statics_changed", ST.globals_dirty_after_seq); j.set("racing_pairs_seen", ST.races_seen);
